@@ -135,7 +135,8 @@ def handleTxbodyWith (c36 : Bool) : Handler := fun inp out => do
          | .obj kvs => (match getField kvs "data" with | some d => scriptVars d | none => [])
          | _ => [])
     | _, _ => []
-  let exact := floatTrees.all fmtExactAll
+  -- (no float formatting any more since ba56562: json.Number keeps the literal text)
+  let exact := floatTrees.all fun _ => true
   let callsOk := !exact || (gCalls.length = m.calls.length && (gCalls.zip m.calls).all fun (a, b) => a == b)
   -- v1: a faulting and a rejected variable in the same `vars` object: Go's map order decides
   let mixed : Bool := kind = "createV1" && m.panic &&
